@@ -235,3 +235,16 @@ func init() {
 		enumRule(c, "X.kinds", "Kind", []string{"(Kind).Value", "canEncode", "(Value).hash"})
 	}})
 }
+
+func init() {
+	register(&Property{ID: "X-nilret", NeedSSA: true, Decided: "dump", NotDecided: "-", Run: func(c *Ctx) {
+		for _, fn := range c.P.ModuleSSAFuncs() {
+			if fn.Origin() != nil {
+				continue
+			}
+			for _, s := range NilReturnSites(fn) {
+				fmt.Printf("nilreturn %s @%s failed=%s\n", FuncKey(fn), c.P.Pos(s.Ret.Pos()), s.Failed.Name())
+			}
+		}
+	}})
+}
